@@ -5,10 +5,10 @@ CONSTANT MaxOps
 VARIABLE nops                       \* task -> calls started
 vars == <<state, pc, counter, tmp, done, nops>>
 
-Proceed(t) == (Silent(t) \/ RetOk(t) \/ RetFail(t) \/ RelCall(t) \/ RelRet(t)) /\ UNCHANGED nops
+Proceed(t) == (Silent(t) \/ RetOk(t) \/ RetFail(t) \/ RelCall(t) \/ RelRet(t) \/ StrayRet(t)) /\ UNCHANGED nops
 Init == LockInit /\ nops = [t \in Tasks |-> 0]
 Next == \E t \in Tasks :
-          \/ /\ nops[t] < MaxOps /\ (Call(t, "acq") \/ Call(t, "try"))
+          \/ /\ nops[t] < MaxOps /\ ((NoStray /\ (Call(t, "acq") \/ Call(t, "try"))) \/ StrayCall(t))
              /\ nops' = [nops EXCEPT ![t] = @ + 1]
           \/ Proceed(t)
 Fair == \A t \in Tasks : WF_vars(Proceed(t))
